@@ -1,9 +1,20 @@
 import SpecterModel.Util
-import SpecterModel.C07.Props
+import SpecterModel.C07.Retry
 /-!
-C07 driver. Line: `fault <scenario> <rpc> <mode> <reached> n=<k> => stuck=<ids|-> lost=<keys|-> subject=<State>`.
-SPEC (the property): if the faulted call was reached, no remaining node may be stuck and no acknowledged
-key may be unreachable. DIFF: the outcome class differs from the proved table `expectedSafe`.
+C07 driver. Lines:
+
+* `fault <scenario> <rpc> <mode> <reached> n=<k> => stuck=<ids|-> lost=<keys|-> subject=<State>`
+  (one injected transport fault), and
+* `fault <leave-hi@join|leave-lo@join> RequestToLeave refused <reached> n=<k> extra=<e> j=<pos>
+     => stuck=… lost=… subject=<State> handoff=<asked>/<successor at that call>|-`
+  (the leave is refused by a successor that holds the membership lock for a join in flight behind the
+  leaver; the join concludes before the retry).
+
+SPEC (the property): if the failing call was reached, then after the retries ended and the ring settled
+no remaining node may be stuck and no acknowledged key may be unreachable. DIFF: the outcome class differs
+from the proved table `expectedSafe`, or the attempt that went through addressed a node that was not the
+leaver's successor at that moment (the model's retry loop reads the successor anew in every attempt:
+`leaveRetry_ok_is_fresh_attempt`, `leaveRetry_hands_to_current_successor`).
 -/
 namespace Specter.C07
 open Specter.Util
@@ -13,18 +24,34 @@ def field (rhs name : String) : String :=
   | some t => (t.drop (name.length + 1)).toString
   | none => "?"
 
+/-- the property oracle, shared by both line shapes -/
+def judge (sc rpc mode reached rhs : String) (handoff : Option String) : Verdict :=
+  let stuck := field rhs "stuck"
+  let lost := field rhs "lost"
+  if reached != "true" then .ok            -- the call was never made / never failed in this run: outside the quantifier
+  else if stuck != "-" || lost != "-" then
+    let how := match handoff with
+      | some h => if h == "-" || h == "?" then "" else
+          match h.splitOn "/" with
+          | [asked, cur] => s!"; the attempt that went through asked {asked} while the leaver's successor was {cur}"
+          | _ => ""
+      | none => ""
+    .spec s!"after {sc} with {rpc} {mode}: stuck nodes [{stuck}], unreachable acknowledged keys [{lost}]{how}"
+  else if !expectedSafe sc rpc mode then
+    .diff s!"model table says this tuple ends with a permanently locked node"
+  else match handoff with
+    | some h =>
+      if handoffConsistent h then .ok
+      else .diff s!"model: every attempt of the retry loop addresses the leaver's current successor; observed {h}"
+    | none => .ok
+
 def step (_ : Unit) (toks : List String) (rhs : String) : Unit × Verdict :=
   match toks with
   | ["reset"] => ((), .ok)
-  | ["fault", sc, rpc, mode, reached, _n] =>
-    let stuck := field rhs "stuck"
-    let lost := field rhs "lost"
-    if reached != "true" then ((), .ok)            -- the call was never made in this run: nothing injected
-    else if stuck != "-" || lost != "-" then
-      ((), .spec s!"after {sc} with {rpc} {mode}: stuck nodes [{stuck}], unreachable acknowledged keys [{lost}]")
-    else if !expectedSafe sc rpc mode then
-      ((), .diff s!"model table says this tuple ends with a permanently locked node")
-    else ((), .ok)
+  | ["fault", sc, rpc, mode, reached, _n] => ((), judge sc rpc mode reached rhs none)
+  | ["fault", sc, rpc, mode, reached, _n, _extra, _j] =>
+    if windowScenario sc then ((), judge sc rpc mode reached rhs (some (field rhs "handoff")))
+    else ((), .bad "unknown scenario")
   | _ => ((), .bad "unknown op")
 
 def main : IO Unit := runLoop () step
